@@ -279,7 +279,11 @@ where
     Scheduler::with_execution(f)
 }
 
-pub fn thread_done() {
+/// Runs the destructors of the active thread's thread-locals.
+///
+/// Part of the thread's life: it happens before whoever joins the thread
+/// resumes.
+pub(crate) fn drop_thread_locals() {
     let locals = execution(|execution| {
         let thread = execution.threads.active_id();
 
@@ -290,6 +294,10 @@ pub fn thread_done() {
 
     // Drop outside of the execution context
     drop(locals);
+}
+
+pub fn thread_done() {
+    drop_thread_locals();
 
     execution(|execution| {
         let thread = execution.threads.active_id();
